@@ -11,8 +11,9 @@ def handle (j : Json) : Except String Json := do
   let t ← parseTree (← j.getObjVal? "tree")
   match op with
   | "ns" =>
-    return Json.mkObj [("lazy", nsOut (lazyNsmaps t)), ("eager_pinned", nsOut (eagerNsmaps t)),
-                       ("inscope", nsOut (some (inScope [] t))), ("eager_safe", eagerSafe t)]
+    return Json.mkObj [("lazy", nsOut (lazyNsmaps t)), ("eager", nsOut (eagerNsmaps t)),
+                       ("inscope", nsOut (some (inScope [] t))),
+                       ("eager_unpopped", nsOut (unpoppedNsmaps t))]
   | "iter" =>
     let d ← getNat j "d"
     let sel : String → Bool := match j.getObjValAs? String "tag" with
